@@ -5,6 +5,11 @@ import os
 VERIF = os.path.dirname(os.path.dirname(os.path.abspath(__file__)))
 
 CHECKS = {
+ 'C02': dict(
+    technique='Formula.tla: token automaton generating every well-formed formula up to N tokens plus a reference recursive-descent parser/evaluator over exact rationals (operator meaning from ExcelValues.tla), model-checked by TLC; every formula compiled and evaluated by pycel in several spellings',
+    text='TLC enumerates all formulas of the grammar (literals incl. doubled quotes/backslash/newline/braces, references, prefix -/+, postfix %, all binary operators, parentheses, SUM/IF calls) up to 5 tokens (7 thorough, sampled to 12), checks PrintParse and RedundantParens on the reference semantics and exports (tokens, value); each is rendered with whitespace/case/extra-parentheses variants, compiled with ExcelFormula and evaluated directly and inside a workbook; the result must equal the reference value.',
+    note='values past the 32-bit guard, non-dyadic comparisons, 0^0, SUM of typed-in text/logicals, two-argument IF are skipped and counted',
+    ref='§3 C02'),
  'C01': dict(
     technique='TLA+ model of the lazy engine (Engine.tla) checked exhaustively by TLC; every transition of the reachable graph replayed on the real ExcelCompiler with state projection; oracle = from-scratch compile',
     text='TLC explores all set_value/evaluate histories (unbounded length, finite state) of the implementation-shaped engine model for several workbooks (chains, ranges, nested ranges, unbounded ranges, CSE arrays) x sources (no data, xlsx with stored results, from_file of yml/json/pkl) and checks Coherent/RetOK/Closure/EdgesComplete; an edge-covering tour then executes every model transition on the real object, comparing each evaluate result with a from-scratch compile and the full abstract state with the model.',
@@ -45,6 +50,11 @@ CHECKS = {
     text='Every formula cell in turn is made to fail (unknown function, raising plugin, plugin switched between calls = "raises on its k-th call"); TLC checks ReturnsTrue, RaiseJustified, CoherentF and UnrelatedOK over all evaluate/set_value/repair/break/heal histories; each transition is executed on the real code: cells not depending on a failing cell must return the value of a fresh model, dependants must raise a pycel exception (or return that true value when legitimately cached), repaired cells behave as constants, and after every call the error-message list, array-context stack, wip flags and todo lists are clean; plain mode also compares the projected state.',
     note='iterative mode is judged by observables only; known finding D29 (overwrite ignored in iterative mode) attributed by predictor; after a repair the precedents of the overwritten cell are not changed',
     ref='§3 C09'),
+ 'C10': dict(
+    technique='ExcelValues.tla (total operator definitions on tagged values, text as character codes) + Operators.tla enumerator over ops x pool^2 (pool^3 for transitivity), model-checked by TLC; every state executed three ways on the code',
+    text='TLC checks Total, ErrLeftFirst, DivZero, Coercion, Trichotomy, TypeOrder, CaseBlind, ConcatRender, Algebra and Transitive on the definitions for 14 operators over a 32-value pool; each (op, a, b) is executed as literals in a formula, as cell operands and directly through the operand fixup; the result must equal the definition, type-exact.',
+    note='0^0, ordering of texts with punctuation, currency/date-like text, "TRUE"/"FALSE" text in arithmetic and huge powers are unconstrained (totality still required)',
+    ref='§3 C10'),
  'C11': dict(
     technique='Address.tla (column letters, print/parse, R1C1, rectangle lattice) model-checked by TLC over boundary walks, sheet-name strings and all rectangle pairs/triples of a 3x3 (4x4) grid; every state executed on AddressRange/AddressCell',
     text='TLC checks ColInverse/ColSucc, coordinate and sheet-name round trips, offset wrap, cell counts, exact intersection, minimal union, commutativity/associativity/idempotence/absorption on the definitions; each visited state is executed on the real address classes in every notation (A1, quoted, $, R1C1 absolute/relative, tuple) and compared.',
